@@ -1,0 +1,26 @@
+//go:build verif
+
+package fdpool
+
+// VerifOrder returns the registration tokens of the members in LRU order
+// (front = most recently used), taken under p.mu, for trace validation by
+// the verification harness.
+func (p *Pool) VerifOrder() []*Handle {
+	p.mu.Lock()
+	defer p.mu.Unlock()
+	if p.lru == nil {
+		return nil
+	}
+	var hs []*Handle
+	for e := p.lru.Front(); e != nil; e = e.Next() {
+		hs = append(hs, e.Value.(*entry).h)
+	}
+	return hs
+}
+
+// VerifRegistered reports whether the token is linked into pool p's list.
+func (p *Pool) VerifRegistered(h *Handle) bool {
+	p.mu.Lock()
+	defer p.mu.Unlock()
+	return h != nil && h.elem != nil
+}
